@@ -385,6 +385,17 @@ fn hostile(case: &Value, out: &mut Obj) -> Result<(), Obj> {
                 .await
                 .map(|v| v.map(|v| v.iter().flat_map(|x| x.to_le_bytes()).collect::<Vec<u8>>()).unwrap_or_default())
         }),
+        "sdo_info_quantities" => env.run(async {
+            sd.sdo_info_object_quantities().await.map(|v| v.map(|q| format!("{q:?}").into_bytes()).unwrap_or_default())
+        }),
+        "sdo_write_array" => {
+            env.run(async { sd.sdo_write_array(0x1C12, [0x1600u16, 0x1601, 0x1602]).await.map(|_| Vec::new()) })
+        }
+        "sdo_read_array255" => env.run(async {
+            sd.sdo_read_array::<u16, 255>(0x1C13)
+                .await
+                .map(|v| v.iter().flat_map(|x| x.to_le_bytes()).collect::<Vec<u8>>())
+        }),
         _ => return Err(unsupported(case, "unknown entry")),
     };
     let value = put_value(out, p);
